@@ -251,3 +251,27 @@ seed('c06-n-so3-equal-dot', 'C06', [(SO3C, "    return arcLength(state1, state2)
 seed('c06-n-rv-indexed', 'C06', [(RV, "        double diff = (*s1++) - (*s2++);\n        dist += diff * diff;", "        double diff = s2[i] - s1[i];\n        dist += diff * diff;")], None)
 seed('c06-n-so2-swapped-operands', 'C06', [(SO2C, "    double d = fabs(state1->as<StateType>()->value - state2->as<StateType>()->value);", "    double d = fabs(state2->as<StateType>()->value - state1->as<StateType>()->value);")], None)
 seed('c06-n-compound-commuted', 'C06', [(SSC, "        dist += weights_[i] * components_[i]->distance(cstate1->components[i], cstate2->components[i]);", "        dist = dist + components_[i]->distance(cstate1->components[i], cstate2->components[i]) * weights_[i];")], None)
+
+# ---- C07 -------------------------------------------------------------------------------------------------------
+TIMC = 'src/ompl/base/spaces/src/TimeStateSpace.cpp'
+DISC = 'src/ompl/base/spaces/src/DiscreteStateSpace.cpp'
+seed('c07-compound-t-squared', 'C07', [(SSC, "        components_[i]->interpolate(cfrom->components[i], cto->components[i], t, cstate->components[i]);", "        components_[i]->interpolate(cfrom->components[i], cto->components[i], t * t, cstate->components[i]);")], 'R07a')
+seed('c07-compound-skip-last', 'C07', [(SSC, "    auto *cstate = static_cast<CompoundState *>(state);\n    for (unsigned int i = 0; i < componentCount_; ++i)\n        components_[i]->interpolate(", "    auto *cstate = static_cast<CompoundState *>(state);\n    for (unsigned int i = 0; i < componentCount_ - 1; ++i)\n        components_[i]->interpolate(")], 'R07a')
+seed('c07-compound-from-to-swapped', 'C07', [(SSC, "components_[i]->interpolate(cfrom->components[i], cto->components[i], t, cstate->components[i]);", "components_[i]->interpolate(cto->components[i], cfrom->components[i], t, cstate->components[i]);")], 'R07a')
+seed('c07-wrapper-from-twice', 'C07', [(WRH, "                return space_->interpolate(from->as<StateType>()->getState(), to->as<StateType>()->getState(), t,", "                return space_->interpolate(from->as<StateType>()->getState(), from->as<StateType>()->getState(), t,")], 'R07a')
+seed('c07-rv-alias-two-step', 'C07', [(RV, "        rstate->values[i] = rfrom->values[i] + (rto->values[i] - rfrom->values[i]) * t;", "    {\n        rstate->values[i] = rfrom->values[i];\n        rstate->values[i] += (rto->values[i] - rfrom->values[i]) * t;\n    }")], 'R07b')
+seed('c07-time-alias-two-step', 'C07', [(TIMC, "    state->as<StateType>()->position =\n        from->as<StateType>()->position + (to->as<StateType>()->position - from->as<StateType>()->position) * t;", "    state->as<StateType>()->position = to->as<StateType>()->position * t;\n    state->as<StateType>()->position += from->as<StateType>()->position * (1.0 - t);")], 'R07b')
+seed('c07-so3-alias-reads-after-write', 'C07', [(SO3C, "        qr->y = (qs1->y * s0 + qs2->y * s1) * d;", "        qr->y = (qs1->y * s0 + qs2->y * s1) * d + 0.0 * qr->x * qs1->x;")], None)
+seed('c07-so3-alias-x-reused', 'C07', [(SO3C, "        qr->w = (qs1->w * s0 + qs2->w * s1) * d;", "        qr->w = (qs1->w * s0 + qs2->w * s1) * d + (qs1->x - qs1->x);\n        if (dq > 2.0)\n            qr->w = qs1->x;")], 'R07b')
+seed('c07-rv-endpoint-bias', 'C07', [(RV, "        rstate->values[i] = rfrom->values[i] + (rto->values[i] - rfrom->values[i]) * t;", "        rstate->values[i] = rfrom->values[i] + (rto->values[i] - rfrom->values[i]) * t * (2.0 - t) * 0.5 * 2.0 * 0.5;")], 'R07c')
+seed('c07-so2-long-way-from-to', 'C07', [(SO2C, "        v = from->as<StateType>()->value - diff * t;", "        v = to->as<StateType>()->value - diff * t;")], 'R07c')
+seed('c07-so2-no-lower-rewrap', 'C07', [(SO2C, "        if (v > pi)\n            v -= 2.0 * pi;\n        else if (v < -pi)\n            v += 2.0 * pi;\n    }\n}\n\nompl::base::StateSamplerPtr ompl::base::SO2StateSpace::allocDefaultStateSampler", "        if (v > pi)\n            v -= 2.0 * pi;\n    }\n}\n\nompl::base::StateSamplerPtr ompl::base::SO2StateSpace::allocDefaultStateSampler")], 'R07d')
+seed('c07-so3-no-long-way-flip', 'C07', [(SO3C, "        if (dq < 0)  // Take care of long angle case see http://en.wikipedia.org/wiki/Slerp\n            s1 = -s1;\n", "")], 'R07e')
+seed('c07-discrete-no-rounding-offset', 'C07', [(DISC, "(to->as<StateType>()->value - from->as<StateType>()->value) * t + 0.5);", "(to->as<StateType>()->value - from->as<StateType>()->value) * t + 1.0);")], 'R07c')
+seed('c07-dubins-shortcut-swapped', 'C07', [(DUB, "        if (t >= 1.)\n        {\n            if (to != state)\n                copyState(state, to);\n            return;\n        }\n        if (t <= 0.)\n        {\n            if (from != state)\n                copyState(state, from);", "        if (t >= 1.)\n        {\n            if (from != state)\n                copyState(state, from);\n            return;\n        }\n        if (t <= 0.)\n        {\n            if (to != state)\n                copyState(state, to);")], 'R07c')
+seed('c07-rs-flag-before-path', 'C07', [(RS, "        path = reedsShepp(from, to);\n        firstTime = false;\n    }\n    interpolate(from, path, t, state);", "        firstTime = false;\n        if (t > 0.999)\n            return;\n        path = reedsShepp(from, to);\n    }\n    interpolate(from, path, t, state);")], 'R07g')
+# neutral rewrites
+seed('c07-n-rv-lerp-form', 'C07', [(RV, "        rstate->values[i] = rfrom->values[i] + (rto->values[i] - rfrom->values[i]) * t;", "        rstate->values[i] = (1.0 - t) * rfrom->values[i] + t * rto->values[i];")], None)
+seed('c07-n-time-local', 'C07', [(TIMC, "    state->as<StateType>()->position =\n        from->as<StateType>()->position + (to->as<StateType>()->position - from->as<StateType>()->position) * t;", "    const double a = from->as<StateType>()->position, b = to->as<StateType>()->position;\n    state->as<StateType>()->position = a + (b - a) * t;")], None)
+seed('c07-n-so2-rewrap-reordered', 'C07', [(SO2C, "        if (v > pi)\n            v -= 2.0 * pi;\n        else if (v < -pi)\n            v += 2.0 * pi;\n    }\n}\n\nompl::base::StateSamplerPtr ompl::base::SO2StateSpace::allocDefaultStateSampler", "        if (v < -pi)\n            v += 2.0 * pi;\n        else if (v > pi)\n            v -= 2.0 * pi;\n    }\n}\n\nompl::base::StateSamplerPtr ompl::base::SO2StateSpace::allocDefaultStateSampler")], None)
+seed('c07-n-rs-flag-order', 'C07', [(RS, "        path = reedsShepp(from, to);\n        firstTime = false;\n    }\n    interpolate(from, path, t, state);", "        firstTime = false;\n        path = reedsShepp(from, to);\n    }\n    interpolate(from, path, t, state);")], None)
